@@ -16,7 +16,7 @@ import (
 const template = "POST http://fault.test/h HTTP/1.1\r\nHost: fault.test\r\nContent-Type: text/plain\r\nX-A: 1\r\nContent-Length: 5\r\n\r\nhello"
 
 func genHostile(r *lib.RNG, i int) (name string, data []byte) {
-	switch i % 16 {
+	switch i % 18 {
 	case 0: // byte flips
 		b := []byte(template)
 		for k := r.Range(1, 4); k > 0; k-- {
@@ -55,6 +55,25 @@ func genHostile(r *lib.RNG, i int) (name string, data []byte) {
 		return "tls-hello-to-plain", append([]byte{0x16, 0x03, 0x01, 0x02, 0x00, 0x01, 0x00, 0x01, 0xfc, 0x03, 0x03}, r.Bytes(r.Intn(300))...)
 	case 13:
 		return "bad-chunk", []byte("POST http://fault.test/h HTTP/1.1\r\nHost: fault.test\r\nTransfer-Encoding: chunked\r\n\r\nzz\r\nhello\r\n0\r\n\r\n")
+	case 16: // octets >= 0x80 (not UTF-8) in the host of the request target, the Host field or a CONNECT target
+		h := []byte("fault.test")
+		h[r.Intn(len(h))] = byte(0x80 + r.Intn(0x80))
+		switch r.Intn(4) {
+		case 0:
+			return "non-utf8-host", []byte("GET http://" + string(h) + "/h HTTP/1.1\r\nHost: " + string(h) + "\r\n\r\n")
+		case 1:
+			return "non-utf8-host", []byte("GET http://" + string(h) + "/h HTTP/1.1\r\nHost: fault.test\r\n\r\n")
+		case 2:
+			return "non-utf8-host", []byte("GET /h HTTP/1.1\r\nHost: " + string(h) + "\r\n\r\n")
+		default:
+			return "non-utf8-host", []byte("CONNECT " + string(h) + ":443 HTTP/1.1\r\nHost: " + string(h) + ":443\r\n\r\n")
+		}
+	case 17: // high bit set on a few octets anywhere
+		b := []byte(template)
+		for k := r.Range(1, 4); k > 0; k-- {
+			b[r.Intn(len(b))] |= 0x80
+		}
+		return "high-bit-flips", b
 	case 14: // several bad requests in a row on one connection (consecutive-error cut-off)
 		return "repeated-bad", bytes.Repeat([]byte("GET http://[::1/ HTTP/1.1\r\nHost: x\r\n\r\n"), 8)
 	default:
